@@ -37,11 +37,17 @@ impl EdgeList {
     @loop_start 1
         let ghost acc0 = vx_acc1@;
         let ghost x0 = vx_x1;
-        assert(1 <= vx_x1 < order);
     @loop_end 1
         proof { lemma_set_tree_step(acc0, vx_acc1@, x0 as int, vx_s1_1); }
     @*/
 
+    // C15, erdos_renyi: a simple digraph on V = 0..order for EVERY value stream of the PRNG and WHATEVER the f64 comparison
+    // `rng.next_f64() < p` returns (hence every seed and every p): `wf` says that every arc joins two distinct vertices of
+    // 0..order (vertex set 0..order, no self-loop).  The clauses "p = 0 gives no arc" / "p = 1 gives every arc" CANNOT be
+    // stated: f64 comparison and `RangeInclusive<f64>::contains` are uninterpreted in this vstd (they pass through Verus as
+    // opaque total operations, exactly as in units/inc/random_more.inc.rs) and `next_f64` is unconstrained.
+    // E14/E14b: outer `collect()` -> BTreeSet `vx_acc1` (loops 1, 2), inner `collect::<Vec<_>>()` -> Vec `vx_acc2` (loop 3 over
+    // `vx_chain(0..u, (u + 1)..order)`, the `filter` / `map` stages fused into its body).
     /*@fn impl=EdgeList trait=ErdosRenyi name=erdos_renyi loopify=BTreeSet,Vec fuse wrap=chain props=C15,C13
     ensures
         order >= 1,
@@ -59,7 +65,7 @@ impl EdgeList {
         u < order,
         it2.iter.obeys_prophetic_iter_laws(),
         it2.iter.decrease() is Some,
-        forall|i: int| 0 <= i < it2.seq().len() ==> (#[trigger] it2.seq()[i]).0 == u && it2.seq()[i].1 < order && it2.seq()[i].1 != u,
+        row_ok(it2.seq(), u, order),
         forall|q: (usize, usize)| #[trigger] vx_acc1@.contains(q) ==> q.0 < order && q.1 < order && q.0 != q.1,
     @loop_start 2
         assert(vx_x2 == it2.seq()[it2.index@]);
@@ -71,10 +77,16 @@ impl EdgeList {
         it3.iter.decrease() is Some,
         // the candidates v are the vertices other than u
         forall|j: int| 0 <= j < it3.seq().len() ==> #[trigger] it3.seq()[j] < order && it3.seq()[j] != u,
-        forall|i: int| 0 <= i < vx_acc2@.len() ==> (#[trigger] vx_acc2@[i]).0 == u && vx_acc2@[i].1 < order && vx_acc2@[i].1 != u,
+        // (a named predicate also fixes the element type of `Vec::new()`, which rustc must know before the invariant is typed)
+        row_ok(vx_acc2@, u, order),
     @loop_start 3
         assert(vx_x3 == it3.seq()[it3.index@]);
     @*/
+}
+
+/// every pair of the row collected for vertex u is an arc from u to another vertex of 0..order
+spec fn row_ok(s: Seq<(usize, usize)>, u: usize, order: usize) -> bool {
+    forall|i: int| 0 <= i < s.len() ==> (#[trigger] s[i]).0 == u && s[i].1 < order && s[i].1 != u
 }
 
 /// inserting the arc (u, q) keeps the out-arc witnesses of the earlier vertices and gives u its own
